@@ -475,10 +475,12 @@ class Exec:
             if isinstance(a, z3.FPRef):
                 return z3.fpNeg(a)
             return ~a if m.group(1) == "Not" else -a
-        m = re.match(r"^(.*) as (\S+) \((\w+)(?:\(.*\))?\)$", rhs)
+        m = re.match(r"^(.*) \((IntToInt|IntToFloat|FloatToInt|FloatToFloat|PtrToPtr|Transmute|PointerCoercion|PointerExposeProvenance|PointerWithExposedProvenance|FnPtrToPtr)(?:\(.*\))?\)$", rhs)
         if m:
-            v, tv = self.operand(st, m.group(1))
-            return self.cast(v, tv, m.group(2), m.group(3))
+            parts = split_top(m.group(1), " as ")
+            if len(parts) >= 2:
+                v, tv = self.operand(st, parts[0])
+                return self.cast(v, tv, " as ".join(parts[1:]).strip(), m.group(2))
         m = re.match(r"^discriminant\((.*)\)$", rhs)
         if m:
             v = self.read(st, m.group(1))
